@@ -63,6 +63,7 @@ func sweepCmd(args []string) {
 	doReplay := fs.Bool("replay", false, "replay refuted safety obligations on the real code")
 	doReset := fs.Bool("reset", false, "C05 reset obligations")
 	doInit := fs.Bool("init", false, "C07 init ghost")
+	doPB := fs.Bool("pb", false, "PacketBuilder typestate / progress")
 	fs.Parse(args)
 	t0 := time.Now()
 	e := newEngine(*repo)
@@ -79,8 +80,18 @@ func sweepCmd(args []string) {
 			fns = append(fns, f)
 		}
 	}
+	if os.Getenv("DEBUGAUTOPOST") != "" {
+		for _, f := range fns {
+			ps := e.autoPost(f)
+			v, _ := e.autoPosts.Load(f)
+			if v != nil {
+				ar := v.(*autoPostResult)
+				fmt.Printf("AUTOPOST %s tried=%d proved=%v n=%d\n", e.fnKey(f), len(ar.tried), ar.proved, len(ps))
+			}
+		}
+	}
 	t1 := time.Now()
-	results := e.verifyAll(fns, func(f *ssa.Function) *FnConfig { return &FnConfig{InputData: *input, NoGlobal: *input, Reset: *doReset, TrackInit: *doInit} })
+	results := e.verifyAll(fns, func(f *ssa.Function) *FnConfig { return &FnConfig{InputData: *input, NoGlobal: *input, Reset: *doReset, TrackInit: *doInit, PB: *doPB} })
 	tot, proved, ref, unk, oos, clean := 0, 0, 0, 0, 0, 0
 	for _, r := range results {
 		if r.OutOfSub != "" {
